@@ -37,13 +37,19 @@ def ref_write(items):
 
 
 def ref_read(bs, expected=None):
-    """returns list of [t, v] or None if malformed"""
+    """returns list of [t, v] or None if malformed; items of types outside `expected` are skipped and never
+    glue their neighbours together"""
     out = []
     i = 0
+    skipped = False
     while i < len(bs):
         t = bs[i]
         if expected and t not in expected:
-            break
+            if i + 1 >= len(bs):
+                break
+            i += 2 + bs[i + 1]
+            skipped = True
+            continue
         if i + 1 >= len(bs):
             return None
         ln = bs[i + 1]
@@ -51,10 +57,11 @@ def ref_read(bs, expected=None):
         if len(v) != ln:
             return None
         i += 2 + ln
-        if out and out[-1][0] == t:
+        if out and out[-1][0] == t and not skipped:
             out[-1][1] += v
         else:
             out.append([t, bytes(v)])
+        skipped = False
     return out
 
 
